@@ -49,6 +49,10 @@ class BMPWriter:
         self.linesize = align32((self.width * self.bits + 7) // 8)
         self.datasize = self.linesize * self.height
         headersize = 14 + 40 + ncols * 4
+        if self.width >= 1 << 31 or headersize + self.datasize >= 1 << 32:
+            # the header fields of a BMP file are 32 bits wide
+            msg = "Image too large for a BMP file: %dx%d" % (self.width, self.height)
+            raise PDFValueError(msg)
         info = struct.pack(
             "<IiiHHIIIIII",
             40,
